@@ -483,7 +483,7 @@ func (p *Program) ground(check string) *GroundResult {
 			}
 		}
 	case "onlyPairsShareGroup":
-		res.Statement = "for every listed id X for which X-only is also a valid spelling, X and the id that X-only denotes are indistinguishable to the matcher: identical, or both in the same version group, or both outside the table"
+		res.Statement = "for every listed id X for which X-only is also a valid spelling, X and the id that X-only denotes are identical or occupy the same slot (family, version) of the version-family table, the hypothesis of lemma sameSlotInterchangeable"
 		for _, id := range append(append([]string{}, t.Active...), t.Deprecated...) {
 			if strings.HasSuffix(id, "+") {
 				continue
@@ -503,22 +503,27 @@ func (p *Program) ground(check string) *GroundResult {
 			}
 			fa, va, oka := t.pos(id)
 			fb, vb, okb := t.pos(den)
-			if oka != okb || (oka && (fa != fb || va != vb)) {
+			if !oka || !okb || fa != fb || va != vb {
 				fail(fmt.Sprintf("%s %v / %s %v", id, posStr(fa, va, oka), den, posStr(fb, vb, okb)))
 			}
 		}
 	case "laterPairsShareGroup":
-		res.Statement = "for every listed id X, the ids denoted by 'X+' and 'X-or-later' have the same position in the version-family table"
+		res.Statement = "for every listed id X, 'X+' and 'X-or-later' denote the same term or terms in the same slot of the version-family table: when X-or-later is listed and X itself is an active id (so that 'X+' keeps the id X), X must be in the table (the lookup strips -or-later, so both ids are then looked up as X); in every other case the normalisation yields the same token value for both spellings"
 		for _, id := range append(append([]string{}, t.Active...), t.Deprecated...) {
 			if strings.HasSuffix(id, "+") || strings.HasSuffix(id, "-or-later") || strings.HasSuffix(id, "-only") {
 				continue
 			}
 			res.Rows++
 			later := id + "-or-later"
-			if !foldIn(t.Active, later) {
-				continue // both spellings yield id with the plus flag
+			if !foldIn(t.Active, later) && !foldIn(t.Exceptions, later) {
+				continue // X-or-later is not listed: it is rewritten to X with the plus flag, exactly what 'X+' yields
 			}
-			// both yield the id X-or-later; its position is that of simplify(X-or-later) = X: nothing to compare, but X must be where X-only is
+			if !foldIn(t.Active, id) && !foldIn(t.Exceptions, id) {
+				continue // X is not an active id: 'X+' is resolved through the listed X-or-later, the same token
+			}
+			if _, _, ok := t.pos(id); !ok {
+				fail(fmt.Sprintf("%s and %s are both listed but %s is not in the version-family table", id, later, id))
+			}
 		}
 	default:
 		res.Holds = false
